@@ -278,17 +278,45 @@ func ruleVersionSearchExhaustive(c *eng.Ctx) {
 		good := false
 		for _, s := range stack {
 			rs, ok := s.(*ast.RangeStmt)
-			if !ok || rs.Value == nil {
+			if !ok {
 				continue
 			}
 			if _, isSlice := info.TypeOf(rs.X).Underlying().(*types.Slice); !isSlice {
 				continue
 			}
-			v := eng.ObjOf(info, rs.Value)
-			for _, a := range call.Args {
-				if v != nil && mentionsObj(info, a, v) {
-					good = true
+			// the loop's element: its value variable, or a local bound to X[key] / X[key] itself
+			elems := map[types.Object]bool{}
+			if rs.Value != nil {
+				if v := eng.ObjOf(info, rs.Value); v != nil {
+					elems[v] = true
 				}
+			}
+			var keyObj types.Object
+			if rs.Key != nil {
+				keyObj = eng.ObjOf(info, rs.Key)
+			}
+			isElemExpr := func(e ast.Expr) bool {
+				ix, ok := ast.Unparen(e).(*ast.IndexExpr)
+				return ok && keyObj != nil && eng.ExprStr(ix.X) == eng.ExprStr(rs.X) && eng.ObjOf(info, ix.Index) == keyObj
+			}
+			ast.Inspect(rs.Body, func(x ast.Node) bool {
+				if as, ok := x.(*ast.AssignStmt); ok && len(as.Lhs) == 1 && len(as.Rhs) == 1 && isElemExpr(as.Rhs[0]) {
+					if o := eng.ObjOf(info, as.Lhs[0]); o != nil {
+						elems[o] = true
+					}
+				}
+				return true
+			})
+			for _, a := range call.Args {
+				ast.Inspect(a, func(x ast.Node) bool {
+					if id, ok := x.(*ast.Ident); ok && elems[info.Uses[id]] {
+						good = true
+					}
+					if e, ok := x.(ast.Expr); ok && isElemExpr(e) {
+						good = true
+					}
+					return true
+				})
 			}
 		}
 		c.Check(good, rule, fmt.Sprintf("getActiveCollectionUp:recursion#%d:over-every-child", n), call.Pos(), "the search descends into every child version",
